@@ -3,7 +3,8 @@
 import json, os, re, shutil, subprocess, sys, tempfile
 sys.path.insert(0, '/verif')
 PID = sys.argv[1]
-src = f'/tmp/wt_{PID}/out'
+WAVE = sys.argv[2] if len(sys.argv) > 2 else ''   # '' = first round (/tmp/wt_PID), '2' = second round (/tmp/wt2_PID, stored as W2-...)
+src = f'/tmp/wt{WAVE}_{PID}/out'
 ALL = ['C02','C03','C04','C05','C06','C07','C08','C09','C10','C11','C13','C14','C15','C16','C17','C18','C19','C20']
 def sh(cmd, cwd=None, env=None):
     r = subprocess.run(cmd, cwd=cwd, env=env, capture_output=True, text=True, shell=isinstance(cmd, str))
@@ -47,11 +48,11 @@ for n in (1, 2, 3, 4):
             print(f'        {p}: {results[p]["first"][:230]}')
         notetxt = open(note).read() if os.path.exists(note) else ''
         title = re.sub(r'[^a-z0-9]+', '-', (notetxt.strip().splitlines() or ['change'])[0].lower())[:40].strip('-') or 'change'
-        out = f'/verif/seeded/{PID}-{n}-{title}'
+        out = f'/verif/seeded/' + (f'W{WAVE}-' if WAVE else '') + f'{PID}-{n}-{title}'
         os.makedirs(out, exist_ok=True)
         shutil.copy(diff, os.path.join(out, 'patch.diff')); shutil.copy(demo, os.path.join(out, 'demo.py'))
         if notetxt: open(os.path.join(out, 'note.md'), 'w').write(notetxt)
-        meta = {'property': PID, 'source': 'independent sub-agent given only the property text and a scratch worktree',
+        meta = {'property': PID, 'source': 'independent sub-agent given only the property text and a scratch worktree' + (' (round 2: consistent across the five models, no caches/state)' if WAVE else ''),
                 'needs_to_manifest': notetxt.strip()[:900],
                 'confirmed': {'demo_exit_clean_tree': c0, 'demo_exit_with_change': c1, 'existing_tests_with_change': '101 passed',
                               'commands': ['git worktree add <tmp> HEAD', 'python demo.py (clean)', 'git apply patch.diff', 'pytest -q (101 passed)', 'python demo.py (fails)']},
